@@ -4,6 +4,7 @@ import (
 	"time"
 
 	"github.com/bluenviron/gortsplib/v5/internal/asyncprocessor"
+	"github.com/bluenviron/gortsplib/v5/pkg/description"
 	"github.com/bluenviron/gortsplib/v5/pkg/format"
 	"github.com/bluenviron/gortsplib/v5/pkg/rtpsender"
 )
@@ -70,4 +71,83 @@ func ZzC18ClientSRTPSizes() {
 	}
 	zzCover("rtcp accepted", err2 == nil)
 	zzCover("rtcp refused", err2 != nil)
+}
+
+// C18 with SRTP on the SERVER side: RTP written through a server session
+// (back channel / record direction) and through a server stream (fan-out to a
+// secure reader) leaves in buffers of at most MaxPacketSize bytes, overhead
+// and MKI included, or is refused with nothing queued.
+func ZzC18ServerSRTPSizes() {
+	P := zzParam("P", 60)
+	maxPS := zzIntIn("MaxPacketSize", 40, zzParam("MAXPS", 80))
+	withMKI := zzParam("MKI", 0) != 0
+	s := &Server{MaxPacketSize: maxPS}
+	now := func() time.Time { return time.Time{} }
+	forma := &format.Generic{PayloadTyp: 96, RTPMa: "private/90000", ClockRat: 90000}
+	medi := &description.Media{Type: description.MediaTypeVideo, Formats: []format.Format{forma}}
+	ctx := zzSRTPCtx(withMKI)
+
+	// server session
+	w := &asyncprocessor.Processor{BufferSize: 8}
+	w.Initialize()
+	ss := &ServerSession{s: s, writer: w}
+	rsm := &serverSessionMedia{ss: ss, media: medi, srtpOutCtx: ctx}
+	snd := &rtpsender.Sender{ClockRate: 90000, TimeNow: now}
+	snd.Initialize()
+	rsf := &serverSessionFormat{ssm: rsm, format: forma, rtpSender: snd, localSSRC: zzU32("localSSRC")}
+	var sent [][]byte
+	rsf.writePacketRTPInQueue = func(b []byte) error {
+		sent = append(sent, b)
+		return nil
+	}
+	pkt := zzPacket(1)
+	pkt.PayloadType = 96
+	pkt.Payload = zzBytesLO("payload", 0, P)
+	err := rsf.writePacketRTP(pkt, time.Time{})
+	w.ZzDrain()
+	if err == nil {
+		zzAssert(len(sent) == 1, "session: accepted SRTP write queued once")
+		if len(sent) == 1 {
+			zzAssert(len(sent[0]) <= maxPS, "session: SRTP packet <= MaxPacketSize (overhead included)")
+		}
+	} else {
+		zzAssert(len(sent) == 0, "session: refused SRTP write transmits nothing")
+	}
+	zzCover("session accepted", err == nil)
+	zzCover("session refused", err != nil)
+
+	// server stream with one secure unicast reader
+	st := &ServerStream{Server: s, activeUnicastReaders: map[*ServerSession]struct{}{}}
+	stm := &serverStreamMedia{st: st, media: medi, srtpOutCtx: ctx}
+	ssf := &serverStreamFormat{ssm: stm, format: forma, localSSRC: zzU32("streamSSRC")}
+	w2 := &asyncprocessor.Processor{BufferSize: 8}
+	w2.Initialize()
+	rs := &ServerSession{s: s, writer: w2, setuppedMedias: map[*description.Media]*serverSessionMedia{}}
+	rm := &serverSessionMedia{ss: rs, media: medi, formats: map[uint8]*serverSessionFormat{}, srtpOutCtx: ctx}
+	snd2 := &rtpsender.Sender{ClockRate: 90000, TimeNow: now}
+	snd2.Initialize()
+	rf := &serverSessionFormat{ssm: rm, format: forma, rtpSender: snd2}
+	var sent2 [][]byte
+	rf.writePacketRTPInQueue = func(b []byte) error {
+		sent2 = append(sent2, b)
+		return nil
+	}
+	rm.formats[96] = rf
+	rs.setuppedMedias[medi] = rm
+	st.activeUnicastReaders[rs] = struct{}{}
+	pkt2 := zzPacket(1)
+	pkt2.PayloadType = 96
+	pkt2.Payload = zzBytesLO("payload2", 0, P)
+	err2 := ssf.writePacketRTP(pkt2, time.Time{})
+	w2.ZzDrain()
+	if err2 == nil {
+		zzAssert(len(sent2) == 1, "stream: accepted SRTP write reaches the reader once")
+		if len(sent2) == 1 {
+			zzAssert(len(sent2[0]) <= maxPS, "stream: SRTP packet <= MaxPacketSize (overhead included)")
+		}
+	} else {
+		zzAssert(len(sent2) == 0, "stream: refused SRTP write reaches nobody")
+	}
+	zzCover("stream accepted", err2 == nil)
+	zzCover("stream refused", err2 != nil)
 }
